@@ -516,6 +516,32 @@ pub fn c03() -> i32 {
         }
         let mut deaths = crate::props::drop::death_scenarios("c03-spectator-death", &["1+1", "1+2"], &[0, 2], &[0], &[false], 60..66, 1, &[(100, 300)], &[true], crate::props::drop::CK_DROP);
         scns.append(&mut deaths);
+        // a live remote player is dropped explicitly while the host still holds frames of it that
+        // have not been relayed to the spectator (zero latency, or the remote's input delay)
+        // (two-peer sessions only: with a third peer the explicit drop of a live peer runs into
+        // the known finding filed under C10)
+        for tp in ["1+1", "1+2"] {
+            for w in [0usize, 2, 8] {
+                for d in [0usize, 1, 2] {
+                    for lat in [0, 1] {
+                        for r in if t { 3..12 } else { 4..8 } {
+                            if w == 0 && d == 0 {
+                                continue;
+                            }
+                            let mut s = base_scn("c03-spectator-explicit-drop", tp, w, d, false, Pred::RepeatLast, Program::Changing, lat);
+                            s.specs.push(SpecSpec::new(20, s.peers[0].addr));
+                            let h = s.peers[1].locals[0];
+                            s.script.push(ScriptItem { round: r, node: 0, action: Action::Disconnect { handle: h } });
+                            s.name = format!("{} disconnect_player({h})@{r}", s.name);
+                            s.horizon = r + 2;
+                            s.probe = 50;
+                            s.checks = crate::props::drop::CK_DROP;
+                            scns.push(s);
+                        }
+                    }
+                }
+            }
+        }
         let n = scns.len();
         let cfg = ExploreCfg { k: Some(0), wall: Duration::from_secs(if t { 600 } else { 30 }), ..Default::default() };
         let out = explore(&scns, &cfg, &no_judge);
